@@ -27,7 +27,9 @@ func cmdFuzz(args []string) {
 	failDir := fs.String("fail", "", "directory for failing cases")
 	idBase := fs.Int("idbase", 1000000000, "first case id")
 	fs.Parse(args)
-	gh.CaseTimeout = 3 * time.Second
+	if os.Getenv("GOPT_TIMEOUT_S") == "" {
+		gh.CaseTimeout = 3 * time.Second
+	}
 	r := rand.New(rand.NewSource(*seed))
 	p := gh.Profiles["C19"]
 	f, err := os.Create(*out)
